@@ -1490,6 +1490,11 @@ def override_shaders(rng, n):
                          {"name": "vs_fullscreen", "stage": "vertex", "params": [{"k": "builtin", "name": "vi", "b": "vertex_index"}], "result": {"k": "builtin", "b": "position"}, "body": [], "wg": []},
                          {"name": "fs_main", "stage": "fragment", "params": [], "result": {"k": "loc", "n": 0, "ty": VEC4}, "body": [], "wg": []},
                          {"name": "cs_main", "stage": "compute", "params": [], "body": [], "wg": ["1"]}]}
+        if len(shaders) % 5 == 4:
+            # an override with a default that gives the length of a workgroup array
+            ovs.append({"name": "tile_len", "ty": "u32", "default": "16u"})
+            S["structs"].append({"name": "TileCell", "members": [{"name": "c", "ty": VEC4}]})
+            S["globals"].append({"name": "tile", "space": "workgroup", "ty": {"k": "array", "n": 4, "len": "tile_len", "e": {"k": "struct", "name": "TileCell"}}})
         u32s = [o["name"] for o in ovs if o["ty"] == "u32"]
         if u32s and len(shaders) % 3 == 2:
             for e in S["entries"]:
